@@ -56,4 +56,15 @@ fn main() {
             vec![pilota_build::IdlService::from_path(pfile.clone())],
             pilota_build::Output::File(out.join("pcorpus_gen.rs")),
         );
+    // proto2 part of the protobuf corpus
+    let p2text = pcorpus_def::print_proto2(&pc);
+    let p2file = idl_dir.join("pcorpus2.proto");
+    std::fs::write(&p2file, &p2text).unwrap();
+    pilota_build::Builder::protobuf()
+        .ignore_unused(false)
+        .include_dirs(vec![idl_dir.clone()])
+        .compile_with_config(
+            vec![pilota_build::IdlService::from_path(p2file.clone())],
+            pilota_build::Output::File(out.join("pcorpus2_gen.rs")),
+        );
 }
